@@ -1,3 +1,165 @@
 import Nv.OracleIO
-/-! oracle_c08 — stub (model not built yet): answers `bad-op` to every line. -/
-def main : IO Unit := Nv.oracleMain (fun (_ : Unit) _ => ((), "bad-op")) ()
+import Nv.Model.C08
+import Nv.Gen.C08
+/-!
+oracle_c08 — line protocol (state: sparse threshold, one 64-bit word, two 1024-bit registers `a`,`b`):
+  new                                   → ok          (re)initialise; threshold := regenerated default
+  magic <m>                             → ok          set the sparse/dense threshold
+  w <hex>                               → ok          load the word
+  set64 <i> | unset64 <i>               → <hex>       i : byte
+  len64                                 → <len> <nlen> <full>
+  alg64 <hex>                           → and=<hex> or=<hex> rev=<hex>
+  iter64 <wt> <f|r> <slen> <pos> <add> <n>   → c=<c> s=[…] | panic      wt ∈ i8 i16 i32 u32 i64
+  getn64 <wt> <f|r> <n>                 → nil | […] | panic             wt ∈ i8 i16 i32 i64
+  load <r> <hex,…16>                    → ok
+  seti32|unseti32|seti16|unseti16 <r> <i> → ok
+  dump <r>                              → <hex,…16>
+  len <r>                               → <len> <nlen>
+  and | or | orrev                      → <hex,…16>   (a op b)
+  rev <r>                               → <hex,…16>
+  eq                                    → true | false
+  iter <r> <wt> <f|r> <slen> <pos> <add> <n> → c=<c> s=[…] | panic      wt ∈ i16 i32 u32 i64
+  getn <r> <wt> <f|r> <n>               → nil | […] | panic             wt ∈ i16 i32 i64
+The test slice is pre-filled with `fill k = 37·k + 11` so that untouched cells are visible.
+-/
+open Nv Nv.C08
+
+namespace OC08
+
+structure S where
+  magic : Int
+  word : Bit64
+  a : Bit1024
+  b : Bit1024
+
+def init : S := ⟨Nv.Gen.C08.cfg.sparseMagic, 0, empty1024, empty1024⟩
+
+def hexDigit (c : Char) : Option Nat :=
+  if '0' ≤ c ∧ c ≤ '9' then some (c.toNat - '0'.toNat)
+  else if 'a' ≤ c ∧ c ≤ 'f' then some (c.toNat - 'a'.toNat + 10)
+  else none
+
+def parseHex? (s : String) : Option Nat :=
+  if s.isEmpty || s.length > 16 then none
+  else s.toList.foldl (fun acc c => match acc, hexDigit c with
+    | some a, some d => some (a * 16 + d)
+    | _, _ => none) (some 0)
+
+def hexOf (n : Nat) : String := String.ofList (Nat.toDigits 16 n)
+def showWord (w : Bit64) : String := hexOf w.toNat
+def showMap (b : Bit1024) : String := ",".intercalate (b.toList.map showWord)
+
+def parseMap? (s : String) : Option Bit1024 :=
+  match (s.splitOn ",").mapM parseHex? with
+  | some l => if h : l.length = 16 then some ⟨(l.map (BitVec.ofNat 64)).toArray, by simp [h]⟩ else none
+  | none => none
+
+/-- element type token → (width, signed) -/
+def widthOf (t : String) : Option (Nat × Bool) :=
+  if t == "i8" then some (8, true) else if t == "i16" then some (16, true) else if t == "i32" then some (32, true)
+  else if t == "u32" then some (32, false) else if t == "i64" then some (64, true) else none
+
+def showVal {w : Nat} (signed : Bool) (v : BitVec w) : String :=
+  if signed then toString v.toInt else toString v.toNat
+
+def fill (w : Nat) (len : Nat) : List (BitVec w) := (List.range len).map (fun k => BitVec.ofNat w (37 * k + 11))
+
+def showIter {w : Nat} (signed : Bool) : Option (List (BitVec w) × Nat) → String
+  | none => "panic"
+  | some (s, c) => s!"c={c} s={showList (showVal signed) s}"
+
+def showGetN {w : Nat} (signed : Bool) : GetN (BitVec w) → String
+  | .panic => "panic"
+  | .nil => "nil"
+  | .slice l => showList (showVal signed) l
+
+def parseDir (s : String) : Option Bool :=
+  if s == "f" then some false else if s == "r" then some true else none
+
+def reg (st : S) (r : String) : Option Bit1024 :=
+  if r == "a" then some st.a else if r == "b" then some st.b else none
+
+def setReg (st : S) (r : String) (v : Bit1024) : S :=
+  if r == "a" then { st with a := v } else { st with b := v }
+
+def inI32 (i : Int) : Bool := -2147483648 ≤ i && i ≤ 2147483647
+def inI64 (i : Int) : Bool := -9223372036854775808 ≤ i && i ≤ 9223372036854775807
+def inPos (i : Int) : Bool := -4611686018427387904 ≤ i && i ≤ 4611686018427387904
+def maxSlice : Nat := 100000
+def inI16 (i : Int) : Bool := -32768 ≤ i && i ≤ 32767
+
+def step (st : S) (line : String) : S × String :=
+  let cfg := Nv.Gen.C08.cfg
+  match words line with
+  | ["new"] => (init, "ok")
+  | ["magic", m] => match parseInt? m with
+    | some m => if inI32 m then ({ st with magic := m }, "ok") else (st, "bad-op")
+    | none => (st, "bad-op")
+  | ["w", h] => match parseHex? h with
+    | some n => ({ st with word := BitVec.ofNat 64 n }, "ok")
+    | none => (st, "bad-op")
+  | ["set64", i] => match parseNat? i with
+    | some i => if i < 256 then let w := set64 st.word (BitVec.ofNat 8 i); ({ st with word := w }, showWord w) else (st, "bad-op")
+    | none => (st, "bad-op")
+  | ["unset64", i] => match parseNat? i with
+    | some i => if i < 256 then let w := unset64 st.word (BitVec.ofNat 8 i); ({ st with word := w }, showWord w) else (st, "bad-op")
+    | none => (st, "bad-op")
+  | ["len64"] => (st, s!"{len64 st.word} {nlen64 st.word} {if full st.word then 1 else 0}")
+  | ["alg64", h] => match parseHex? h with
+    | some n =>
+      let c := BitVec.ofNat 64 n
+      (st, s!"and={showWord (and64 st.word c)} or={showWord (or64 st.word c)} rev={showWord (reverse64 st.word)}")
+    | none => (st, "bad-op")
+  | ["iter64", wt, d, slen, pos, add, n] =>
+    match widthOf wt, parseDir d, parseNat? slen, parseInt? pos, parseInt? add, parseInt? n with
+    | some (w, sg), some rev, some slen, some pos, some add, some n =>
+      if slen > maxSlice || !inPos pos || !inI64 add || !inPos n then (st, "bad-op") else
+      (st, showIter sg (iter64 (w := w) st.magic rev st.word (fill w slen) pos (BitVec.ofInt w add) n))
+    | _, _, _, _, _, _ => (st, "bad-op")
+  | ["getn64", wt, d, n] =>
+    match widthOf wt, parseDir d, parseInt? n with
+    | some (w, sg), some rev, some n =>
+      if wt == "u32" || !inPos n || n > maxSlice then (st, "bad-op") else (st, showGetN sg (getN64 (w := w) st.magic rev st.word n))
+    | _, _, _ => (st, "bad-op")
+  | ["load", r, m] => match reg st r, parseMap? m with
+    | some _, some v => (setReg st r v, "ok")
+    | _, _ => (st, "bad-op")
+  | [op, r, i] =>
+    match reg st r, parseInt? i with
+    | some b, some i =>
+      if op == "seti32" && inI32 i then (setReg st r (setI32 b (BitVec.ofInt 32 i)), "ok")
+      else if op == "unseti32" && inI32 i then (setReg st r (unsetI32 b (BitVec.ofInt 32 i)), "ok")
+      else if op == "seti16" && inI16 i then (setReg st r (setI16 b (BitVec.ofInt 16 i)), "ok")
+      else if op == "unseti16" && inI16 i then (setReg st r (unsetI16 b (BitVec.ofInt 16 i)), "ok")
+      else (st, "bad-op")
+    | _, _ => (st, "bad-op")
+  | ["dump", r] => match reg st r with
+    | some b => (st, showMap b)
+    | none => (st, "bad-op")
+  | ["len", r] => match reg st r with
+    | some b => (st, s!"{len1024 b} {nlen1024 b}")
+    | none => (st, "bad-op")
+  | ["and"] => (st, showMap (and1024 st.a st.b))
+  | ["or"] => (st, showMap (or1024 st.a st.b))
+  | ["orrev"] => (st, showMap (orThenReverse1024 st.a st.b))
+  | ["rev", r] => match reg st r with
+    | some b => (st, showMap (reverse1024 b))
+    | none => (st, "bad-op")
+  | ["eq"] => (st, if equal1024 st.a st.b then "true" else "false")
+  | ["iter", r, wt, d, slen, pos, add, n] =>
+    match reg st r, widthOf wt, parseDir d, parseNat? slen, parseInt? pos, parseInt? add, parseInt? n with
+    | some b, some (w, sg), some rev, some slen, some pos, some add, some n =>
+      if wt == "i8" || slen > maxSlice || !inPos pos || !inI64 add || !inPos n then (st, "bad-op")
+      else (st, showIter sg (iter1024 (w := w) cfg st.magic rev b (fill w slen) pos (BitVec.ofInt w add) n))
+    | _, _, _, _, _, _, _ => (st, "bad-op")
+  | ["getn", r, wt, d, n] =>
+    match reg st r, widthOf wt, parseDir d, parseInt? n with
+    | some b, some (w, sg), some rev, some n =>
+      if wt == "i8" || wt == "u32" || !inPos n || n > maxSlice then (st, "bad-op")
+      else (st, showGetN sg (getN1024 (w := w) cfg st.magic rev b n))
+    | _, _, _, _ => (st, "bad-op")
+  | _ => (st, "bad-op")
+
+end OC08
+
+def main : IO Unit := Nv.oracleMain OC08.step OC08.init
